@@ -260,8 +260,55 @@ fn run_case(case: &Value, rep: &mut Report) {
                 }
             }
             Some(a) => {
-                diverged = Some(format!("step {i} ({act}): role {role} is at site {} but the model expects {site}", a.site));
-                break;
+                // The role is at a site the model did not predict (the code has an extra or a missing step).
+                // Keep steering if possible: let the role run through up to 8 unexpected sites until it
+                // reaches the predicted one, so that the rest of the interleaving is still forced.
+                if diverged.is_none() {
+                    diverged = Some(format!("step {i} ({act}): role {role} is at site {} but the model expects {site}", a.site));
+                }
+                let mut resynced = false;
+                for _ in 0..8 {
+                    ctl::grant(role);
+                    let t0 = Instant::now();
+                    let mut next = None;
+                    while t0.elapsed() < Duration::from_secs(3) {
+                        if let Some(n) = ctl::wait_parked(role, 20) {
+                            next = Some(n);
+                            break;
+                        }
+                        if ctl::is_finished(role) {
+                            break;
+                        }
+                    }
+                    match next {
+                        Some(n) if n.site == site => {
+                            resynced = true;
+                            break;
+                        }
+                        Some(_) => continue,
+                        None => break,
+                    }
+                }
+                if !resynced {
+                    break;
+                }
+                // now at the predicted site: perform the scheduled turn
+                if act == "RRunTaskOv" {
+                    sh.overflow_next.store(true, Ordering::SeqCst);
+                }
+                ctl::grant(role);
+                executed += 1;
+                if role == 0 {
+                    r_in_kernel = st["blocks"].as_bool().unwrap_or(false);
+                }
+                if !(role == 0 && r_in_kernel) {
+                    let t0 = Instant::now();
+                    loop {
+                        if ctl::wait_parked(role, 20).is_some() || ctl::is_finished(role) || t0.elapsed() > Duration::from_secs(5) {
+                            break;
+                        }
+                    }
+                }
             }
             None => {
                 diverged = Some(format!(
